@@ -155,6 +155,13 @@ let parse_op (ws : string list) : map_op =
   | "par_drain" -> OpDrain (nat_of_int 0)                            (* count filled in by the caller *)
   | "par_extend" -> OpExtend (List.map parse_kv3 (rest 2))
   | "par_split" -> OpLen
+  | "from_par_iter" | "par_eq" -> OpLen                              (* judged by their own rules in the map handler *)
+  | "spar_iter" -> OpIter
+  | "sinto_par_iter" | "spar_drain" -> OpDrain (nat_of_int 0)        (* count filled in by the caller *)
+  | "spar_extend" ->
+    OpExtend (List.map (fun t -> match String.split_on_char ':' t with
+      | [k; st] -> { k_id = zs k; k_stamp = zs st; v_val = Z0 }
+      | _ -> failwith ("set item " ^ t)) (rest 2))
   | "serde_de" | "serde_roundtrip" | "serde_set" -> OpLen
   | "getmanymut" -> OpLen
   | "sinsert" -> OpSetInsert (z 1, z 2)
@@ -321,6 +328,9 @@ let parse_top (ws : string list) : tbl_op =
   | "tcapacity" -> TCapacity
   | "tallocsize" -> TAllocationSize
   | "tdrop" -> TDropTable
+  | "tpar_iter" -> TIter
+  | "tpar_iter_mut" -> TRetain ([], z 2)                             (* keep list is filled in by the caller *)
+  | "tinto_par_iter" | "tpar_drain" -> TDrain (nat_of_int 0)         (* count filled in by the caller *)
   | o -> failwith ("unknown table op " ^ o)
 
 let tout_text (o : tout) : string =
@@ -662,6 +672,21 @@ let () =
            if do_c && ret_s <> boolret modelb then say "C-MISMATCH %s: model [%s] impl [%s]" where (boolret modelb) ret_s;
            if ret_s <> boolret math then say "A-FAIL %s: expected %s got [%s]" where (boolret math) ret_s in
          let subset x y = List.for_all (fun e -> in_l e y) x in
+         let check_par_list (math : kv list) =
+           unchanged ();
+           incr c_skipped; incr a_checked;
+           (match parse_list ret_s with
+            | Some l ->
+              if not (same_keys l math) || List.length l <> List.length math then
+                say "A-FAIL %s: parallel result is not the mathematical set: expected keys [%s] got [%s]" where (String.concat "," (keys math)) (String.concat "," (keys l));
+              (* every delivered object is stored in one of the two sets *)
+              List.iter (fun (e : kv) -> if not (List.exists (fun (x : kv) -> kv_text x = kv_text e) (la @ lb)) then
+                            say "A-FAIL %s: delivered element %s is stored in neither set" where (kv_text e)) l
+            | None -> say "A-FAIL %s: unparsable result [%s]" where ret_s) in
+         let check_par_bool (math : bool) =
+           unchanged ();
+           incr c_skipped; incr a_checked;
+           if ret_s <> boolret math then say "A-FAIL %s: expected %s got [%s]" where (boolret math) ret_s in
          let check_newset (modell : kv list) (math : kv list) =
            unchanged ();
            incr c_checked; incr a_checked;
@@ -700,6 +725,15 @@ let () =
           | "and_assign" -> check_assign OpAndAssign m_inter
           | "xor_assign" -> check_assign OpXorAssign m_sym
           | "sub_assign" -> check_assign OpSubAssign m_diff
+          (* rayon (C19): no step model; the result as a set / the predicate against the reference sets *)
+          | "spar_union" -> check_par_list m_union
+          | "spar_intersection" -> check_par_list m_inter
+          | "spar_difference" -> check_par_list m_diff
+          | "spar_symmetric_difference" -> check_par_list m_sym
+          | "spar_is_subset" -> check_par_bool (subset sa sb)
+          | "spar_is_superset" -> check_par_bool (subset sb sa)
+          | "spar_is_disjoint" -> check_par_bool (m_inter = [])
+          | "spar_eq" -> check_par_bool (subset sa sb && subset sb sa)
           | o -> say "D-ERROR %s: unknown binary op %s" where o);
          if List.length la <= List.length lb then bump branch "set_a_smaller_or_equal" else bump branch "set_a_larger";
          Hashtbl.replace distinct (opname ^ "|" ^ prea_s ^ "|" ^ preb_s) ()
@@ -736,6 +770,15 @@ let () =
        let where = Printf.sprintf "script=%s step=%s op=[%s]" !script stepno (String.concat " " opws) in
        (try
          let op = parse_top opws in
+         (* rayon operations (C19): no step model (the delivery order is the scheduler's choice); judged
+            against the reference multiset (A) like their sequential counterparts and by the invariant (B) *)
+         let topname = List.hd opws in
+         let is_tpar = List.mem topname ["tpar_iter"; "tpar_iter_mut"; "tinto_par_iter"; "tpar_drain"] in
+         let op = (match topname, op with
+           | "tpar_iter_mut", TRetain (_, add) -> TRetain (List.map (fun (e : kv) -> e.k_id) (occupants (table_of_dump (parse_dump pre_s))), add)
+           | ("tinto_par_iter" | "tpar_drain"), _ ->
+             (match parse_tout ret_s with Some (TOutList l) -> TDrain (nat_of_int (List.length l)) | _ -> op)
+           | _ -> op) in
          (* 1- and 2-byte elements carry only their id (stamp and value are 0); zero-sized elements
             carry nothing, and the harness' rehash hasher cannot recover the hash they were
             inserted with: for those only the safety invariant is judged *)
@@ -775,7 +818,7 @@ let () =
            | TReserve n | TTryReserve n | TShrinkTo n | TWithCapacity n -> Z.ltb (zs "16777216") n
            | _ -> false) in
          if huge then bump branch "huge_capacity_request";
-         if do_c && lawful && not other_arm && not is_libpanic && not huge then begin
+         if do_c && lawful && not other_arm && not is_libpanic && not huge && not is_tpar then begin
            incr c_checked;
            (match table_step cfg.backend cfg.tsize cfg.talign cfg.needs_drop rehash_guard_unconditional (hash_of panic_key) refuse tpre op with
             | Fail e -> say "C-MISMATCH %s: model stops with %s but the implementation returned [%s]; pre=%s" where (err_text e) ret_s (dump_text pre)
@@ -839,7 +882,9 @@ let () =
          if big then bump branch "table_too_big_to_dump";
          let do_b = do_b && not big and do_c = do_c && not big and do_a = do_a && not big in
          let is_serde = String.length opname >= 6 && String.sub opname 0 6 = "serde_" in
-         let is_par = (String.length opname >= 4 && String.sub opname 0 4 = "par_") || opname = "into_par_iter" || is_serde || opname = "getmanymut" in
+         let is_par = (String.length opname >= 4 && String.sub opname 0 4 = "par_") || opname = "into_par_iter" || is_serde || opname = "getmanymut"
+                      || opname = "from_par_iter" || List.mem opname ["spar_iter"; "sinto_par_iter"; "spar_drain"; "spar_extend"] in
+         let own_rule = opname = "from_par_iter" || opname = "par_eq" in
          if opname = "serde_de" then
            (match words ev_s with
             | first :: _ when String.length first > 2 && String.sub first 0 2 = "A:" ->
@@ -922,7 +967,7 @@ let () =
             delivery order is the scheduler's choice, so there is no step model for them *)
          let op = (match opname, op0 with
            | ("par_iter_mut" | "par_values_mut"), OpRetain (_, add) -> OpRetain (List.map (fun (e : kv) -> e.k_id) (occupants tpre), add)
-           | "par_drain", _ | "into_par_iter", _ ->
+           | "par_drain", _ | "into_par_iter", _ | "spar_drain", _ | "sinto_par_iter", _ ->
              (match parse_out ret_s with Some (OutList l) -> OpDrain (nat_of_int (List.length l)) | _ -> op0)
            | _ -> op0) in
          if chk_s <> "ok" then say "H-FAIL %s: harness check: %s" where chk_s;
@@ -1026,7 +1071,33 @@ let () =
               if int_of_nat tpre.mask + 1 < cfg.gw && int_of_nat tpre.mask > 0 then bump branch "small_table")
          end else incr c_skipped;
          (* ---- level A ---- *)
-         if do_a && lawful && !spec_valid && opname <> "par_split" && not is_serde && opname <> "getmanymut" then begin
+         if do_a && lawful && !spec_valid && own_rule then begin
+           (* from_par_iter builds a separate map: its contents are `first key object, last value` of the
+              items; par_eq is mathematical equality of the two reference maps; neither touches the map *)
+           incr a_checked;
+           let contents = occupants tpost in
+           if sorted_kvs contents <> sorted_kvs !spec || dump_text pre <> dump_text post then
+             say "A-FAIL %s: a read-only parallel operation changed the map" where;
+           if opname = "from_par_iter" then begin
+             let items = List.map parse_kv3 (List.filteri (fun j _ -> j >= 2) opws) in
+             let want = List.fold_left (fun acc (e : kv) -> insert_like acc e.k_id e.k_stamp e.v_val) [] items in
+             (match ret with
+              | Some (OutList l) ->
+                if sorted_kvs l <> sorted_kvs want then
+                  say "A-FAIL %s: from_par_iter contents are not `last value per key`: expected [%s] got [%s]" where
+                    (String.concat "," (sorted_kvs want)) (String.concat "," (sorted_kvs l))
+              | Some OutUnwind -> ()
+              | _ -> if not is_libpanic then say "A-FAIL %s: unparsable result [%s]" where ret_s)
+           end else begin
+             let ka l = List.sort compare (List.map (fun (e : kv) -> (string_of_z e.k_id, string_of_z e.v_val)) l) in
+             let math = (ka !spec = ka !spec_other) in
+             (match ret with
+              | Some OutUnwind -> ()
+              | _ -> if ret_s <> (if math then "bool 1" else "bool 0") then
+                  say "A-FAIL %s: par_eq returned [%s] but the maps %s hold the same keys with equal values" where ret_s (if math then "do" else "do not"))
+           end
+         end;
+         if do_a && lawful && !spec_valid && opname <> "par_split" && not is_serde && opname <> "getmanymut" && not own_rule then begin
            incr a_checked;
            let contents = occupants tpost in
            (match ret with
